@@ -9,7 +9,7 @@ LOG=/tmp/cm/$ID.log
 mkdir -p /tmp/cm
 rm -rf $WT; git -C /repo worktree prune
 git -C /repo worktree add --detach -q $WT HEAD || exit 2
-cd $WT
+cd $WT; mkdir -p $WT/_seeded
 {
 echo "== $ID  $(date)"
 cp $SRC/demo.py /tmp/cm/$ID-demo.py
